@@ -174,6 +174,30 @@ def fresh (names : List Str) : List Str → Bool
   | [] => true
   | n :: r => !(names.contains n) && fresh (names ++ [n]) r
 
+def docAfter (r : Root) (d : Doc) (ns : Forest) : Doc :=
+  match r with
+  | .sec s => d.app s ns
+  | _ => d
+
+@[simp] theorem attachToRoot_doc (st : St) (ns : Forest) : (attachToRoot st ns).doc = docAfter st.root st.doc ns := by
+  unfold attachToRoot docAfter; cases hr : st.root <;> simp [hr]
+@[simp] theorem attachToRoot_spine (st : St) (ns : Forest) : (attachToRoot st ns).spine = st.spine := by
+  unfold attachToRoot; cases hr : st.root <;> simp [hr]
+@[simp] theorem attachToRoot_root (st : St) (ns : Forest) : (attachToRoot st ns).root = st.root := by
+  unfold attachToRoot; cases hr : st.root <;> simp [hr]
+@[simp] theorem attachToRoot_names (st : St) (ns : Forest) : (attachToRoot st ns).names = st.names := by
+  unfold attachToRoot; cases hr : st.root <;> simp [hr]
+@[simp] theorem attachToRoot_fix (st : St) (ns : Forest) : (attachToRoot st ns).fix = st.fix := by
+  unfold attachToRoot; cases hr : st.root <;> simp [hr]
+@[simp] theorem attachToRoot_stylesPart (st : St) (ns : Forest) : (attachToRoot st ns).stylesPart = st.stylesPart := by
+  unfold attachToRoot; cases hr : st.root <;> simp [hr]
+@[simp] theorem attachToRoot_parsing (st : St) (ns : Forest) : (attachToRoot st ns).parsing = st.parsing := by
+  unfold attachToRoot; cases hr : st.root <;> simp [hr]
+@[simp] theorem attachToRoot_data (st : St) (ns : Forest) : (attachToRoot st ns).data = st.data := by
+  unfold attachToRoot; cases hr : st.root <;> simp [hr]
+@[simp] theorem attachToRoot_currDet (st : St) (ns : Forest) : (attachToRoot st ns).currDet = st.currDet := by
+  unfold attachToRoot; cases hr : st.root <;> simp [hr]
+
 def appendKids (st : St) (ns : Forest) : St :=
   match st.spine with
   | f :: r => { st with spine := f.add ns :: r }
@@ -228,5 +252,401 @@ theorem attachHook_fresh (names : List Str) (pq : Option QName) (q : QName) (a :
           simp [hq, hl, hp, hnm, lookupFix]; cases lookupA aTextStyleName a <;> simp
         · simp [hq, hl, hp, lookupFix]; cases lookupA aTextStyleName a <;> simp
     · simp [hq, lookupFix]; cases lookupA aTextStyleName a <;> simp
+
+@[simp] theorem parentQ_appendKids (st : St) (ns : Forest) : parentQ (appendKids st ns) = parentQ st := by
+  unfold appendKids parentQ attachToRoot
+  cases hs : st.spine with
+  | cons f r => simp [Frame.add]
+  | nil => cases hr : st.root <;> simp [hr, hs]
+
+theorem parentOK_appendKids (st : St) (ns : Forest) (h : ParentOK st) : ParentOK (appendKids st ns) := by
+  unfold appendKids attachToRoot ParentOK at *
+  cases hs : st.spine with
+  | cons f r => left; simp
+  | nil =>
+    rcases h with h | h | h | ⟨s, h⟩
+    · exact absurd hs h
+    all_goals simp [h, hs]
+
+theorem stepStart_inner (st : St) (q : QName) (a : List (QName × Str)) (hp : st.parsing = true)
+    (hok : ParentOK st) (hf : st.fix = []) (hq : isTrigger q = false)
+    (hfr : fresh st.names (regOne (parentQ st) q a) = true) :
+    stepStart st q a = some (openE (flushP st) q a) := by
+  have hsec := isTrigger_false_secOf hq
+  have hff : q ≠ qFontFace := by intro h; rw [h, trig_fontFace] at hq; cases hq
+  unfold stepStart
+  simp only [hq, hp, hff, Bool.false_eq_true, if_false, Bool.and_false, Bool.not_true, decide_false]
+  by_cases hd : st.data.isEmpty = true
+  · simp only [hd, if_true, hsec]
+    have hfl : flushP st = st := by simp [flushP, hd]
+    rw [hfl]
+    unfold ParentOK at hok
+    cases hs : st.spine with
+    | cons f r =>
+      simp only [hs]
+      rw [hf, attachHook_fresh _ _ _ _ (by simpa [parentQ, hs] using hfr)]
+      simp [openE, hs, hp, hf, parentQ]
+    | nil =>
+      rcases hok with h | h | h | ⟨s, h⟩
+      · exact absurd hs h
+      all_goals
+        simp only [hs, h]
+        rw [hf, attachHook_fresh _ _ _ _ (by simpa [parentQ, hs, h] using hfr)]
+        simp [openE, hs, hp, hf, parentQ, h]
+  · simp only [hd, Bool.false_eq_true, if_false, addToParent_ok st _ hok, Option.map_some, hsec]
+    have hfl : flushP st = { appendKids st (.cons (.text st.data) .nil) with data := [] } := by simp [flushP, hd]
+    rw [hfl]
+    unfold ParentOK at hok
+    cases hs : st.spine with
+    | cons f r =>
+      simp only [appendKids, hs]
+      rw [hf, attachHook_fresh _ _ _ _ (by simpa [parentQ, hs, Frame.add] using hfr)]
+      simp [openE, hs, hp, hf, parentQ, Frame.add]
+    | nil =>
+      rcases hok with h | h | h | ⟨s, h⟩
+      · exact absurd hs h
+      all_goals
+        simp only [appendKids, attachToRoot, hs, h]
+        rw [hf, attachHook_fresh _ _ _ _ (by simpa [parentQ, hs, h] using hfr)]
+        simp [openE, hs, hp, hf, parentQ, h]
+
+def closeE (st : St) : St :=
+  match st.spine with
+  | f :: r => { appendKids { st with spine := r } (.cons f.close .nil) with currDet := false }
+  | [] => st
+
+theorem stepStop_inner (st : St) (q : QName) (hp : st.parsing = true) (hs : st.spine ≠ [])
+    (hcd : st.currDet = false) (hq : isTrigger q = false) :
+    stepStop st q = some (closeE (flushP st)) := by
+  unfold stepStop
+  simp only [hp, Bool.not_true, Bool.false_eq_true, if_false]
+  cases hsp : st.spine with
+  | nil => exact absurd hsp hs
+  | cons f r =>
+    by_cases hd : st.data.isEmpty = true
+    · have hfl : flushP st = st := by simp [flushP, hd]
+      simp only [hd, if_true, hfl, hsp, closeE, hq]
+      cases r with
+      | nil => simp [appendKids]
+      | cons g r' => simp [appendKids]
+    · have hfl : flushP st = { appendKids st (.cons (.text st.data) .nil) with data := [] } := by simp [flushP, hd]
+      simp only [hd, Bool.false_eq_true, if_false, addToCurr, hcd, addToParent, hsp, Option.map_some, hfl, closeE,
+        appendKids, hq]
+      cases r with
+      | nil => simp [appendKids]
+      | cons g r' => simp [appendKids]
+
+/-! #### algebra of `appendKids` -/
+
+theorem Doc.app_nil (d : Doc) (s : Sec) : d.app s .nil = d := by
+  cases s <;> simp [Doc.app, Doc.set, Doc.get]
+
+theorem Doc.app_app (d : Doc) (s : Sec) (a b : Forest) : (d.app s a).app s b = d.app s (appF a b) := by
+  cases s <;> simp [Doc.app, Doc.set, Doc.get, appF_assoc]
+
+@[simp] theorem Doc.get_app_same (d : Doc) (s : Sec) (a : Forest) : (d.app s a).get s = appF (d.get s) a := by
+  cases s <;> simp [Doc.app, Doc.set, Doc.get]
+
+theorem Doc.get_app_other (d : Doc) (s s' : Sec) (a : Forest) (h : s' ≠ s) : (d.app s a).get s' = d.get s' := by
+  cases s <;> cases s' <;> simp_all [Doc.app, Doc.set, Doc.get]
+
+theorem appendKids_nil (st : St) : appendKids st .nil = st := by
+  unfold appendKids attachToRoot
+  cases hs : st.spine with
+  | cons f r => cases st; simp_all [Frame.add]
+  | nil => cases hr : st.root <;> cases st <;> simp_all [Doc.app_nil]
+
+theorem appendKids_appendKids (st : St) (a b : Forest) :
+    appendKids (appendKids st a) b = appendKids st (appF a b) := by
+  unfold appendKids attachToRoot
+  cases hs : st.spine with
+  | cons f r => simp [Frame.add, appF_assoc]
+  | nil => cases hr : st.root <;> simp [hs, hr, Doc.app_app]
+
+theorem isEmpty_eq_nil {l : Str} (h : l.isEmpty = true) : l = [] := by cases l <;> simp_all
+
+theorem flushP_eq (st : St) : flushP st = { appendKids st (flushT st.data .nil) with data := [] } := by
+  unfold flushP flushT
+  by_cases h : st.data.isEmpty = true
+  · have := isEmpty_eq_nil h
+    simp only [h, if_true, appendKids_nil]
+    cases st; simp_all
+  · simp [h]
+
+theorem fresh_append (names a b : List Str) : fresh names (a ++ b) = (fresh names a && fresh (names ++ a) b) := by
+  induction a generalizing names with
+  | nil => simp [fresh]
+  | cons n r ih => simp [fresh, ih, Bool.and_assoc, List.append_assoc]
+
+theorem regOne_nontrigger (pq : Option QName) (q : QName) (a : List (QName × Str))
+    (h : ∀ p, pq = some p → isTrigger p = false) : regOne pq q a = [] := by
+  unfold regOne
+  cases pq with
+  | none => rfl
+  | some p =>
+    have hp := h p rfl
+    have h1 : p ≠ qStyles := by intro e; rw [e, trig_styles] at hp; cases hp
+    have h2 : p ≠ qAutoStyles := by intro e; rw [e, trig_autoStyles] at hp; cases hp
+    simp [h1, h2]
+
+theorem regF_nontrigger (pq : Option QName) (h : ∀ p, pq = some p → isTrigger p = false) :
+    (f : Forest) → regF pq f = []
+  | .nil => rfl
+  | .cons (.text _) t => by simp [regF, regF_nontrigger pq h t]
+  | .cons (.cdata _) t => by simp [regF, regF_nontrigger pq h t]
+  | .cons (.elem q a _) t => by simp [regF, regOne_nontrigger pq q a h, regF_nontrigger pq h t]
+
+/-- what one element contributes: from `st`, the events `start q a`, those of `kids`, `stop q` -/
+def afterElem (st : St) (q : QName) (a : List (QName × Str)) (kids : Forest) : St :=
+  { appendKids st (flushT st.data (.cons (.elem q a (mergeTF [] kids)) .nil)) with
+      data := []
+      names := st.names ++ regOne (parentQ st) q a
+      currDet := false }
+
+theorem elem_closed (st : St) (q : QName) (a : List (QName × Str)) (kids : Forest)
+    (hr : regF (parentQ (openE (flushP st) q a)) kids = []) :
+    closeE (flushP (result (openE (flushP st) q a) kids)) = afterElem st q a kids := by
+  rw [flushP_eq (result _ _)]
+  simp only [result, hr, List.append_nil]
+  rw [flushP_eq st]
+  have hm := mergeTF_eq [] kids
+  obtain ⟨doc, names, fix, sp, parsing, data, root, spine, currDet⟩ := st
+  cases spine with
+  | cons f r =>
+    simp [openE, appendKids, closeE, afterElem, parentQ, Frame.add, Frame.close, hm, appF_assoc, appF_flushT]
+  | nil =>
+    cases root <;>
+      simp [openE, appendKids, closeE, afterElem, parentQ, Frame.add, Frame.close, hm, appF_flushT, docAfter, Doc.app_app]
+
+theorem result_nil (st : St) : result st .nil = st := by
+  simp only [result, mergeK, regF, hasElemF, appendKids_nil, List.append_nil]
+  cases st; simp
+
+theorem result_text (st : St) (s : Str) (t : Forest) :
+    result { st with data := st.data ++ s } t = result st (.cons (.text s) t) := by
+  obtain ⟨doc, names, fix, sp, parsing, data, root, spine, currDet⟩ := st
+  cases spine with
+  | cons f r => simp [result, mergeK, regF, hasElemF, appendKids, parentQ]
+  | nil => cases root <;> simp [result, mergeK, regF, hasElemF, appendKids, parentQ, attachToRoot]
+
+theorem result_cdata (st : St) (s : Str) (t : Forest) :
+    result { st with data := st.data ++ s } t = result st (.cons (.cdata s) t) := by
+  obtain ⟨doc, names, fix, sp, parsing, data, root, spine, currDet⟩ := st
+  cases spine with
+  | cons f r => simp [result, mergeK, regF, hasElemF, appendKids, parentQ]
+  | nil => cases root <;> simp [result, mergeK, regF, hasElemF, appendKids, parentQ, attachToRoot]
+
+theorem result_elem (st : St) (q : QName) (a : List (QName × Str)) (kids t : Forest) :
+    result (afterElem st q a kids) t = result st (.cons (.elem q a kids) t) := by
+  obtain ⟨doc, names, fix, sp, parsing, data, root, spine, currDet⟩ := st
+  cases spine with
+  | cons f r =>
+    simp [result, afterElem, mergeK, regF, hasElemF, appendKids, parentQ, Frame.add, appF_assoc, appF_flushT]
+  | nil =>
+    cases root <;>
+      simp [result, afterElem, mergeK, regF, hasElemF, appendKids, parentQ, attachToRoot, appF_flushT, Doc.app_app]
+
+/-! #### invariants of the helper states -/
+
+theorem flushP_parsing (st : St) : (flushP st).parsing = st.parsing := by
+  rw [flushP_eq]; unfold appendKids; cases hs : st.spine <;> simp
+theorem flushP_fix (st : St) : (flushP st).fix = st.fix := by
+  rw [flushP_eq]; unfold appendKids; cases hs : st.spine <;> simp
+theorem flushP_names (st : St) : (flushP st).names = st.names := by
+  rw [flushP_eq]; unfold appendKids; cases hs : st.spine <;> simp
+theorem flushP_parentQ (st : St) : parentQ (flushP st) = parentQ st := by
+  rw [flushP_eq]
+  have := parentQ_appendKids st (flushT st.data .nil)
+  simpa [parentQ] using this
+theorem flushP_parentOK (st : St) (h : ParentOK st) : ParentOK (flushP st) := by
+  rw [flushP_eq]
+  have := parentOK_appendKids st (flushT st.data .nil) h
+  simpa [ParentOK] using this
+
+theorem parentQ_openE (st : St) (q : QName) (a : List (QName × Str)) :
+    ∀ p, parentQ (openE st q a) = some p → p = q := by
+  intro p
+  unfold parentQ openE
+  cases st.root <;> simp <;> intro h <;> exact h.symm
+
+theorem afterElem_parentQ (st : St) (q : QName) (a : List (QName × Str)) (kids : Forest) :
+    parentQ (afterElem st q a kids) = parentQ st := by
+  have := parentQ_appendKids st (flushT st.data (.cons (.elem q a (mergeTF [] kids)) .nil))
+  simpa [afterElem, parentQ] using this
+
+theorem afterElem_parentOK (st : St) (q : QName) (a : List (QName × Str)) (kids : Forest) (h : ParentOK st) :
+    ParentOK (afterElem st q a kids) := by
+  have := parentOK_appendKids st (flushT st.data (.cons (.elem q a (mergeTF [] kids)) .nil)) h
+  simpa [afterElem, ParentOK] using this
+
+theorem appendKids_fields (st : St) (ns : Forest) :
+    (appendKids st ns).parsing = st.parsing ∧ (appendKids st ns).fix = st.fix ∧ (appendKids st ns).names = st.names ∧
+    (appendKids st ns).data = st.data ∧ (appendKids st ns).currDet = st.currDet ∧
+    (appendKids st ns).stylesPart = st.stylesPart ∧ (appendKids st ns).root = st.root ∧
+    ((appendKids st ns).spine = [] ↔ st.spine = []) := by
+  unfold appendKids; cases hs : st.spine <;> simp [hs]
+
+/-- **the tree builder, inside an element**: from any state in which the parser is switched on and has a parent to
+    attach to, the events of a forest without section elements append exactly `mergeK` of the forest to that parent
+    and leave the trailing character data pending. -/
+theorem run_forest : (f : Forest) → (st : St) → st.parsing = true → ParentOK st → st.fix = [] →
+    noTrigF f = true → fresh st.names (regF (parentQ st) f) = true →
+    run st (evF f) = some (result st f)
+  | .nil, st, _, _, _, _, _ => by simp [evF, result_nil]
+  | .cons (.text s) t, st, hp, hok, hf, hnt, hfr => by
+    simp only [evF, evN, List.cons_append, List.nil_append, run_cons, step, Option.bind_some]
+    have hst : stepChars st s = { st with data := st.data ++ s } := by simp [stepChars, hp]
+    rw [hst, ← result_text]
+    refine run_forest t _ hp ?_ hf (by simpa [noTrigF, noTrigN] using hnt) (by simpa [regF, parentQ] using hfr)
+    simpa [ParentOK] using hok
+  | .cons (.cdata s) t, st, hp, hok, hf, hnt, hfr => by
+    simp only [evF, evN, List.cons_append, List.nil_append, run_cons, step, Option.bind_some]
+    have hst : stepChars st s = { st with data := st.data ++ s } := by simp [stepChars, hp]
+    rw [hst, ← result_cdata]
+    refine run_forest t _ hp ?_ hf (by simpa [noTrigF, noTrigN] using hnt) (by simpa [regF, parentQ] using hfr)
+    simpa [ParentOK] using hok
+  | .cons (.elem q a kids) t, st, hp, hok, hf, hnt, hfr => by
+    have hnt' : isTrigger q = false ∧ noTrigF kids = true ∧ noTrigF t = true := by
+      simpa [noTrigF, noTrigN, Bool.and_assoc] using hnt
+    obtain ⟨hq, hnk, hntt⟩ := hnt'
+    have hfr' : fresh st.names (regOne (parentQ st) q a) = true ∧
+        fresh (st.names ++ regOne (parentQ st) q a) (regF (parentQ st) t) = true := by
+      simpa [regF, fresh_append] using hfr
+    simp only [evF, evN, List.cons_append, List.append_assoc, run_cons, step]
+    rw [stepStart_inner st q a hp hok hf hq hfr'.1]
+    simp only [Option.bind_some]
+    -- the children
+    let st1 := openE (flushP st) q a
+    have h1p : st1.parsing = true := by simp [st1, openE, flushP_parsing, hp]
+    have h1ok : ParentOK st1 := by left; simp [st1, openE]
+    have h1f : st1.fix = [] := by simp [st1, openE, flushP_fix, hf]
+    have h1q : ∀ p, parentQ st1 = some p → isTrigger p = false := by
+      intro p hpq; rw [parentQ_openE _ _ _ p hpq]; exact hq
+    have h1r : regF (parentQ st1) kids = [] := regF_nontrigger _ h1q kids
+    have ihk := run_forest kids st1 h1p h1ok h1f hnk (by rw [h1r]; rfl)
+    rw [run_append, ihk]
+    simp only [Option.bind_some, run_cons]
+    -- the end tag
+    have hres := appendKids_fields st1 (mergeK st1.data kids).1
+    have h3p : (result st1 kids).parsing = true := by simp [result, hres.1, h1p]
+    have h3s : (result st1 kids).spine ≠ [] := by
+      simp only [result]; intro h; have := hres.2.2.2.2.2.2.2.mp h; simp [st1, openE] at this
+    have h3c : (result st1 kids).currDet = false := by simp [result, st1, openE]
+    rw [step, stepStop_inner _ q h3p h3s h3c hq]
+    simp only [Option.bind_some]
+    rw [elem_closed st q a kids h1r, ← result_elem]
+    -- the rest
+    refine run_forest t _ ?_ (afterElem_parentOK st q a kids hok) ?_ hntt ?_
+    · have := appendKids_fields st (flushT st.data (.cons (.elem q a (mergeTF [] kids)) .nil))
+      simp [afterElem, this.1, hp]
+    · have := appendKids_fields st (flushT st.data (.cons (.elem q a (mergeTF [] kids)) .nil))
+      simp [afterElem, this.2.1, hf]
+    · rw [afterElem_parentQ]
+      simpa [afterElem] using hfr'.2
+
+/-! ### sections: routing, and what is ignored -/
+
+/-- **C04 (routing)**: the document attribute a start tag is routed to.  `office:font-face-decls` is taken from
+    styles.xml only; the other seven section elements from whatever part they occur in. -/
+def route (stylesPart : Bool) (q : QName) : Option Sec :=
+  if !stylesPart && q = qFontFace then none else secOfTrigger q
+
+theorem routing_table :
+    route false qFontFace = none ∧ route true qFontFace = some .fontFace ∧
+    (∀ sp, route sp qAutoStyles = some .autoStyles ∧ route sp qBody = some .body ∧ route sp qMaster = some .master ∧
+      route sp qMeta = some .metaS ∧ route sp qScripts = some .scripts ∧ route sp qSettings = some .settings ∧
+      route sp qStyles = some .styles) := by
+  refine ⟨by decide, by decide, ?_⟩
+  intro sp; cases sp <;> decide
+
+theorem route_some_trigger {sp : Bool} {q : QName} {s : Sec} (h : route sp q = some s) :
+    isTrigger q = true ∧ secOfTrigger q = some s ∧ ¬(sp = false ∧ q = qFontFace) := by
+  unfold route at h
+  by_cases hc : (!sp && decide (q = qFontFace)) = true
+  · simp [hc] at h
+  · simp only [hc, Bool.false_eq_true, if_false] at h
+    refine ⟨by simp [isTrigger, h], h, ?_⟩
+    rintro ⟨h1, h2⟩; simp [h1, h2] at hc
+
+/-- while the parser is switched off, everything without a section element inside is skipped -/
+theorem run_ignored : (f : Forest) → (st : St) → st.parsing = false → noTrigF f = true → run st (evF f) = some st
+  | .nil, st, _, _ => rfl
+  | .cons (.text s) t, st, hp, hnt => by
+    simp only [evF, evN, List.cons_append, List.nil_append, run_cons, step, Option.bind_some]
+    have : stepChars st s = st := by simp [stepChars, hp]
+    rw [this]; exact run_ignored t st hp (by simpa [noTrigF, noTrigN] using hnt)
+  | .cons (.cdata s) t, st, hp, hnt => by
+    simp only [evF, evN, List.cons_append, List.nil_append, run_cons, step, Option.bind_some]
+    have : stepChars st s = st := by simp [stepChars, hp]
+    rw [this]; exact run_ignored t st hp (by simpa [noTrigF, noTrigN] using hnt)
+  | .cons (.elem q a kids) t, st, hp, hnt => by
+    have hnt' : isTrigger q = false ∧ noTrigF kids = true ∧ noTrigF t = true := by
+      simpa [noTrigF, noTrigN, Bool.and_assoc] using hnt
+    obtain ⟨hq, hnk, hntt⟩ := hnt'
+    have hstart : stepStart st q a = some st := by
+      unfold stepStart; simp [hq, hp]; cases st; simp_all
+    have hstop : stepStop st q = some st := by unfold stepStop; simp [hp]
+    simp only [evF, evN, List.cons_append, List.append_assoc, run_cons, step, hstart, Option.bind_some]
+    rw [run_append, run_ignored kids st hp hnk]
+    simp only [Option.bind_some, List.cons_append, List.nil_append, run_cons, step, hstop]
+    exact run_ignored t st hp hntt
+
+/-- the children a section receives from a section element with content `f`: the merged content — unless `f` has no
+    element child at all, in which case its character data is lost with the element LoadParser built and dropped -/
+def secContent (f : Forest) : Forest := if hasElemF f then mergeTF [] f else .nil
+
+def Idle (st : St) : Prop := st.parsing = false ∧ st.data = [] ∧ st.spine = [] ∧ st.currDet = false
+
+/-- the state after a whole section element -/
+def afterSection (st : St) (s : Sec) (kids : Forest) : St :=
+  { st with doc := st.doc.app s (secContent kids)
+            names := st.names ++ regF (some (qOfSec s)) kids
+            root := if hasElemF kids then .top else .none }
+
+theorem settle_nil (st : St) (h : st.spine = []) : settle st = st := by simp [settle, h, collapse]
+
+/-- **C04 (one section)**: a section element met while the parser is idle puts `secContent` of its content into the
+    section it is routed to, registers the style names, and leaves the parser idle again.  The attributes `a` of the
+    section element do not appear on the right-hand side: they are dropped. -/
+theorem run_section (st : St) (q : QName) (a : List (QName × Str)) (kids : Forest) (s : Sec)
+    (hi : Idle st) (hf : st.fix = []) (hr : route st.stylesPart q = some s) (hnt : noTrigF kids = true)
+    (hfr : fresh st.names (regF (some (qOfSec s)) kids) = true) :
+    run st (evN (.elem q a kids)) = some (afterSection st s kids) := by
+  obtain ⟨htr, hsec, hnf⟩ := route_some_trigger hr
+  obtain ⟨hp, hd, hsp, hcd⟩ := hi
+  -- the start tag
+  let st1 : St := { st with parsing := true, root := .sec s, spine := [], currDet := true }
+  have hstart : stepStart st q a = some st1 := by
+    unfold stepStart
+    have hc : (!st.stylesPart && decide (q = qFontFace)) = false := by
+      cases hsp' : st.stylesPart <;> simp_all
+    simp only [htr, if_true, hc, Bool.false_eq_true, if_false, Bool.not_true, hd, List.isEmpty_nil, hsec]
+    rw [settle_nil _ (by simpa using hsp)]
+    simp [st1, hd]
+  have h1q : parentQ st1 = some (qOfSec s) := by simp [st1, parentQ]
+  have ihk := run_forest kids st1 rfl (Or.inr (Or.inr (Or.inr ⟨s, rfl⟩))) (by simpa [st1] using hf) hnt
+    (by rw [h1q]; simpa [st1] using hfr)
+  simp only [evN, run_cons, step, hstart, Option.bind_some]
+  rw [run_append, ihk]
+  simp only [Option.bind_some, run_cons, run_nil, step]
+  -- the end tag
+  have hK := mergeTF_eq [] kids
+  obtain ⟨doc, names, fix, stp, parsing, data, root, spine, currDet⟩ := st
+  simp only at hp hd hsp hcd hf
+  subst hp hd hsp hcd hf
+  by_cases he : hasElemF kids = true
+  · by_cases hk2 : (mergeK [] kids).2.isEmpty = true
+    · have hk2' := isEmpty_eq_nil hk2
+      simp [stepStop, result, st1, appendKids, attachToRoot, h1q, he, hk2', htr, afterSection, secContent, hK, flushT]
+    · simp [stepStop, result, st1, appendKids, attachToRoot, h1q, he, hk2, htr, afterSection, secContent, hK, flushT,
+        addToCurr, addToParent, Doc.app_app]
+  · have he' : hasElemF kids = false := by simpa using he
+    have hk1 := mergeK_noElem [] kids he'
+    by_cases hk2 : (mergeK [] kids).2.isEmpty = true
+    · have hk2' := isEmpty_eq_nil hk2
+      simp [stepStop, result, st1, appendKids, attachToRoot, h1q, he', hk2', htr, afterSection, secContent, hk1,
+        Doc.app_nil]
+    · simp [stepStop, result, st1, appendKids, attachToRoot, h1q, he', hk2, htr, afterSection, secContent, hk1,
+        Doc.app_nil, addToCurr]
 
 end OdfModel.Props.C04
